@@ -76,12 +76,28 @@ func runC03(p *Program, r *Result) {
 	}
 
 	// ---- R03.2
-	r.Rule("R03.2", "the MAC is computed over the header as parsed: same value, and nobody reachable from Decrypt rewrites header or stanza fields", 2)
+	r.Rule("R03.2", "the MAC is computed over the header as parsed: same value, and nobody reachable from Decrypt rewrites header or stanza fields", 3)
 	for i, c := range callsTo(dec, hmacFn.String()) {
 		args := c.Common().Args
 		t := short(tb.Term(args[1]).String())
 		r.Check(t == "format.Parse(P1).0", sub, callKey("headerMAC", i)+":hdr", r.pos(c),
 			"hdr argument is the first result of format.Parse(src)", "headerMAC is given "+t+" instead of the header returned by format.Parse(src)")
+	}
+	// Decrypt itself must not touch the parsed header before (or after) MACing it
+	{
+		e := p.EffectsOf(dec)
+		nobad := true
+		for _, w := range e.Writes {
+			for _, rt := range p.rootsOf(writeAddr(w), map[ssa.Value]bool{}, false, map[*ssa.Function]bool{}) {
+				if rt.Kind == "callres" && strings.HasSuffix(rt.Name, "format.Parse") {
+					nobad = false
+					r.Bad(sub, "write:parsed-header:"+w.Field, r.pos(w.Instr), "Decrypt modifies the header returned by format.Parse ("+w.How+"): the MAC would be computed over something other than the header that was received")
+				}
+			}
+		}
+		if nobad {
+			r.OK(sub, "parsed-header-untouched", "", "Decrypt performs no store, append or copy into memory of the parsed header")
+		}
 	}
 	reach := p.Reachable(dec)
 	r.CallSites += len(reach)
@@ -286,6 +302,12 @@ func runC03(p *Program, r *Result) {
 		}
 		r.Check(ok, hmacFn.String(), "recipe:fed-by", "", "hmac state written only by hdr.MarshalWithoutMAC(hh), error checked, before Sum(nil)",
 			"the HMAC is not fed by exactly hdr.MarshalWithoutMAC(hh) (checked) before Sum")
+	}
+
+	// ---- R03.7
+	r.Rule("R03.7", "strict canonical parsing, so that the MACed serialisation equals the received bytes (= R07.1)", 16)
+	if pf, rsf, ivf, df := r.anchor(pkgFormat, "", "Parse"), r.anchor(pkgFormat, "StanzaReader", "ReadStanza"), r.anchor(pkgFormat, "", "isValidString"), r.anchor(pkgFormat, "", "DecodeString"); pf != nil && rsf != nil && ivf != nil && df != nil {
+		checkCanonicalParse(p, r, pf, rsf, ivf, df)
 	}
 
 	// ---- R03.6
